@@ -20,7 +20,7 @@ import c08_gen as GEN        # noqa: E402
 
 ID = "C08"
 DESIGN_REF = "DESIGN.md section 5, C08"
-LEAN_TARGETS = ["PV.C08.Thm", "PV.C08.ThmTok", "PV.C08.AtAny"]
+LEAN_TARGETS = ["PV.C08.Thm", "PV.C08.ThmTok", "PV.C08.AtAny", "PV.C08.AtComment"]
 DRIVER = "drv_c08"
 HARNESS = {"bin": "pvh_c08", "features": "default"}
 PAREN_THEOREMS = [
@@ -105,6 +105,13 @@ THEOREMS = [
     "PV.C08.layoutEq_any_blanks_example",
     "PV.C08.layoutEq_any_bracket_example",
     "PV.C08.layoutEq_any_eof_example",
+    "PV.C08.runs_next",
+    "PV.C08.not_behindComment_at_hash",
+    "PV.C08.comment_grow_runs",
+    "PV.C08.lex_layout_invariant_runs_all",
+    "PV.C08.lex_layout_invariant_all",
+    "PV.C08.layout_tree_invariant_all",
+    "PV.C08.layoutEq_all_comment_example",
     "PV.C08.rule_eol_thm",
     "PV.C08.rule_blanks_thm",
     "PV.C08.rule_commentAfter_thm",
@@ -140,9 +147,11 @@ PARTIAL = [
     "front of a run), no LF directly behind a CR (bracket break), the place is not BehindComment (blanks, comment, join; "
     "witnesses at_rewritten_not_derivable, lay_side_conditions_needed). Derived by at_any_extend from step_any_local ('a step "
     "that ends inside y, whatever follows, gives the same result with a layout character behind y' — every arm incl. the number "
-    "lexer). LayoutEq' (AtTok.lean, places in front of a layout character) is a sub-relation (toLayoutEq''). Left out of "
-    "LayoutEq'' (in LayoutEq only, with At for the rewritten text as hypothesis): blanks / a further comment BEHIND A COMMENT "
-    "(`x#c` + blank: the tokens are equal but the comment step grows, so the splice argument does not apply); line ends (eol) "
+    "lexer). LayoutEq' (AtTok.lean, places in front of a layout character) is a sub-relation (toLayoutEq''). Text inserted BEHIND A COMMENT "
+    "(`x#c` + blank / + `#d`: the comment step grows, no splice) is the extra rule of LayoutEq''' (AtComment.lean: "
+    "comment_grow_runs, proved directly — the comment arm takes everything up to the line end and emits no token; hypothesis: At "
+    "in front of the `#`, original text only), so LayoutEq''' (lex_layout_invariant_all, layout_tree_invariant_all) has every "
+    "rule of LayoutEq with hypotheses on the original texts only; line ends (eol) "
     "and BOM are unconditional",
     "re-indentation (lex_reindent_invariant): proved for texts related by PV.C08.Reindent — logical lines are read off the "
     "lexer's run on the ORIGINAL text, the new run of blanks of every line must be free of 'tab after space' (measure = some) "
@@ -172,9 +181,8 @@ LEVEL_TEXT = ("Machine-checked Lean 4 theorems, for texts of every length. (1) L
               "real lexer on (original, variant) pairs on every run, and the real PARSER is judged directly: every "
               "CPython-validated layout variant (incl. re-indentation and redundant parentheses) of generated programs and of "
               "the CPython standard library must give the same acceptance and the same range-erased tree.")
-LEVEL_NOTE = ("Not proved: the LALRPOP automaton (reference parsers are tied to it by correspondence), blanks / comments inserted "
-              "BEHIND A COMMENT without At for the rewritten text (everywhere else it is derived under explicit side conditions: "
-              "LayoutEq''; witness that the comment condition is needed), parenthesis positions listed as missing. "
+LEVEL_NOTE = ("Not proved: the LALRPOP automaton (reference parsers are tied to it by correspondence), redundant-"
+              "parenthesis positions listed as missing. "
               "Trusted: Lean kernel, CPython 3.11.7 as judge of layout-only, the rewriter/generator/harness, the PROG and C11 "
               "correspondence for the reference parsers.")
 
